@@ -21,7 +21,7 @@ pub(crate) struct C18 {
     pub id: &'static str,
 }
 
-const TEMPLATES: &[&str] = &["nick_race_unreg", "first_join", "limit_slot", "oper_in_flight", "kick_part_nick", "msg_streams", "nick_race_reg", "invite_join", "password_reg_race", "mixed", "random", "random", "topic_mode_race"];
+const TEMPLATES: &[&str] = &["nick_race_unreg", "first_join", "limit_slot", "oper_in_flight", "kick_part_nick", "msg_streams", "nick_race_reg", "invite_join", "password_reg_race", "mixed", "random", "random", "random", "random", "topic_mode_race"];
 
 fn esc_lines(v: &[String]) -> String {
     v.join("\u{1e}")
